@@ -30,6 +30,8 @@ Mechanism keys are assigned only when the library's state equals what the mechan
                                     undo() cannot repair it)
   scipy-result-pair-inconsistent    (only once the lens is left at result.x) scipy returned x of one logged evaluation
                                     with the objective of another (L-BFGS-B 'ABNORMAL'); merit == value logged at result.x
+  scipy-nan-iterate                 scipy itself produced NaN trial values / a NaN result.x (L-BFGS-B after the 1e10
+                                    penalty cliff gave it a 1e18 gradient); the NaN entries are those of result.x / the last x
   index-variable-discards-dispersion  an index variable on a catalogue glass: the first evaluation (and undo) leave a
                                     constant-index medium; merit at the start point == merit of the lens with that glass flattened
   scipy-iterate-worse-than-start-returned  scipy.optimize.minimize evaluated the start and handed back a logged iterate
@@ -108,6 +110,7 @@ MECH_TRF = 'trf-start-nudged-off-bound'
 MECH_NANSOLVE = 'solve-nan-poisons-lens'
 MECH_NANTHK = 'nonfinite-thickness-poisons-positions'
 MECH_PAIR = 'scipy-result-pair-inconsistent'
+MECH_NANX = 'scipy-nan-iterate'
 MECH_DISP = 'index-variable-discards-dispersion'
 DE_MP_TIMEOUT_S = int(os.environ.get('C14_DE_MP_TIMEOUT_S', '300'))
 
@@ -586,15 +589,22 @@ def judge_run(rec, info, o, fe):
     # workers=-1 nothing is evaluated in the parent and the lens keeps its start values
     alt, flags = None, ()
     kp = poisoned_from(vs_list, o)
+    # which NaN-persistence mechanism can act here: a non-finite thickness trial, else a NaN written by the solve, else
+    # (no thickness trial, no solve) only NaN iterates of scipy itself
+    nan_mech = MECH_NANTHK if kp is not None else MECH_NANSOLVE if info.get('has_solve') else MECH_NANX
     # (after an abnormal L-BFGS-B line search scipy may hand back an x it never evaluated, with the fun of its last trial)
     if last is not None and (o['returned_x_evaluated'] or (not o['success'] and o['returned_fun_is_logged_value'])):
         alt, flags = np.asarray(last[0], dtype=float), (MECH_LAST,)
-        if kp is not None:
+        nanz = set(o.get('nan_z_after', []))
+        if nanz:
+            # NaN vertex positions persist (set_thickness / solves add to the stored positions): every thickness whose
+            # gap touches one reads NaN, whatever x was last set
             alt = alt.copy()
             for i, vs in enumerate(vs_list):
-                if vs['kind'] == 'thickness' and vs['kw']['surface_number'] >= kp:
+                k_ = vs['kw']['surface_number']
+                if vs['kind'] == 'thickness' and (k_ in nanz or k_ + 1 in nanz):
                     alt[i] = np.nan
-            flags = (MECH_LAST, MECH_NANTHK)
+            flags = (MECH_LAST, nan_mech)
     elif last is None and fe == 'de-mp':
         alt, flags = x0, (MECH_MP,)
     # a thickness is read back as the difference of two absolutely stored vertex positions: rounding 16 eps max|z|
@@ -650,14 +660,14 @@ def judge_run(rec, info, o, fe):
     def near(a_, b_, rel):
         return a_ is not None and b_ is not None and abs(a_ - b_) <= rel * max(abs(a_), abs(b_), 1e-300)
     head_at_x0 = bool(head) and np.allclose(head[0][0], x0, rtol=0, atol=1e-12 * float(np.max(xscale(x0))))
-    start_seen = head_at_x0 and (near(head[0][1], o['m0'], 1e-9) or near(head[0][1], m0_flat, 1e-9)
+    start_seen = head_at_x0 and (fault0 or near(head[0][1], o['m0'], 1e-9) or near(head[0][1], m0_flat, 1e-9)
                                  or abs(head[0][1] - o['m0']) <= 4 * o.get('round_sens', 0.0))
     mech = 'unexplained'
     if clipped_by_mech:
         mech = MECH_BOUNDS
     elif m0_flat is not None and o['fun'] <= m0_flat * (1 + 1e-12) + 1e-300:
         mech = MECH_DISP     # the first evaluation replaced a catalogue glass by a constant index: the start merit moved
-    elif (fe.startswith('generic') or fe == 'compensator:generic') and start_seen and not fault0 \
+    elif (fe.startswith('generic') or fe == 'compensator:generic') and start_seen \
             and (o['returned_point_evaluated'] or o['returned_fun_is_logged_value']):
         # scipy.optimize.minimize evaluated the start, later handed back an iterate with a larger objective (SLSQP at
         # its iteration limit or converged on the flat 1e10 penalty plateau, L-BFGS-B after an abnormal line search
@@ -683,10 +693,14 @@ def judge_run(rec, info, o, fe):
         # as-built: a feasible start that lies outside the wrongly scaled bounds may be handed back unchanged
         kept_start = bstat[i] == 'mech' and start_outside[i] and all(
             (lo[i] - sl <= t <= hi[i] + sl) or t == x0[i] for t in (x[i], got[i]))
-        nan_thk = (kp is not None and vs['kind'] == 'thickness' and vs['kw']['surface_number'] >= kp and math.isnan(got[i])
-                   and lo[i] - sl <= x[i] <= hi[i] + sl)
+        k_ = vs['kw']['surface_number']
+        nanz = set(o.get('nan_z_after', []))
+        nan_thk = (vs['kind'] == 'thickness' and (k_ in nanz or k_ + 1 in nanz) and math.isnan(got[i])
+                   and (lo[i] - sl <= x[i] <= hi[i] + sl or math.isnan(x[i])))
+        nan_x = math.isnan(x[i]) or (math.isnan(got[i]) and last is not None and math.isnan(last[0][i]))
+        nkey = nan_mech if nan_thk else MECH_NANX if nan_x else None
         rec.check('bounds-respected', inside_given,
-                  key='bounds-respected:' + (MECH_BOUNDS if kept_start else MECH_NANTHK if nan_thk else 'unexplained'),
+                  key='bounds-respected:' + (MECH_BOUNDS if kept_start else nkey if nkey else 'unexplained'),
                   msg=f'{fe}: {vs["kind"]} variable: result.x[{i}] = {x[i]!r}, value left = {got[i]!r}, bounds handed to the '
                       f'optimiser = ({lo[i]!r}, {hi[i]!r})')
         raw = o['raw_after'][i]
@@ -696,11 +710,11 @@ def judge_run(rec, info, o, fe):
         inside_raw = rlo - sr <= raw <= rhi + sr
         rec.check('bounds-respected', inside_raw,
                   key='bounds-respected:' + (MECH_BOUNDS if (bstat[i] == 'mech' and (inside_given or kept_start))
-                                             else MECH_NANTHK if (nan_thk and math.isnan(raw)) else 'unexplained'),
+                                             else nkey if (nkey and math.isnan(raw)) else 'unexplained'),
                   msg=f'{fe}: {vs["kind"]} (apply_scaling={vs["scaled"]}) left at {raw!r} in lens units, outside '
                       f'(min_val, max_val) = ({vs.get("min_val")!r}, {vs.get("max_val")!r})')
     # -- pickups / solves --------------------------------------------------------------------------------
-    judge_dependents(rec, o['dependents'], f'{fe}: after optimize()', nan_mech=(MECH_NANTHK if kp is not None else MECH_NANSOLVE))
+    judge_dependents(rec, o['dependents'], f'{fe}: after optimize()', nan_mech=nan_mech)
     # -- NaN faults --------------------------------------------------------------------------------------
     for i, v in o['fault_evals']:
         rec.check('nan-fault', v == W.PENALTY, key='nan-fault:unexplained',
@@ -868,7 +882,7 @@ def case_opt(case, rec):
     # bounds units of this problem's variables, on a twin lens (the live one is not touched before the run)
     twin = L.build(case['spec'])
     bstat = [check_bounds_units(rec, twin, vs) for vs in case['variables']]
-    info = dict(vars=case['variables'], bstat=bstat)
+    info = dict(vars=case['variables'], bstat=bstat, has_solve=bool(case.get('solve')))
     for vs, st in zip(case['variables'], bstat):
         rec.cls(f'optvar-{"scaled" if vs["scaled"] else "unscaled"}-{"bounded" if st != "unbounded" else "unbounded"}')
     c = W.build(case)
